@@ -10,15 +10,30 @@ Class Num (F : Type) := {
   nadd : F -> F -> F; nsub : F -> F -> F; nmul : F -> F -> F; ndiv : F -> F -> F;
   nltb : F -> F -> bool; nleb : F -> F -> bool; neqb : F -> F -> bool;
   nofZ : Z -> F;
-  nfloor : F -> Z
+  nfloor : F -> Z;
+  nnorm : F -> F   (* value-preserving normalisation of the representation (identity on R) *)
 }.
+
+(* Self-checking normalisation of a rational: Euclid with fuel; the candidate divisor is used only
+   if it is positive and divides both parts, so correctness does not depend on the fuel. *)
+Fixpoint zgcd_f (fuel : nat) (a b : Z) : Z :=
+  match fuel with
+  | O => a
+  | S f => if (b =? 0)%Z then a else zgcd_f f b (a mod b)%Z
+  end.
+Definition qnorm (q : Q) : Q :=
+  let n := Qnum q in let d := Zpos (Qden q) in
+  let g := Z.abs (zgcd_f (S (S (Pos.size_nat (Qden q))) * 2) n d) in
+  if (1 <? g)%Z && (n mod g =? 0)%Z && (d mod g =? 0)%Z
+  then Qmake (n / g) (Z.to_pos (d / g)) else q.
 
 #[global] Instance NumQ : Num Q := {
   n0 := 0%Q; n1 := 1%Q;
   nadd := Qplus; nsub := Qminus; nmul := Qmult; ndiv := Qdiv;
   nltb a b := negb (Qle_bool b a); nleb := Qle_bool; neqb := Qeq_bool;
   nofZ z := inject_Z z;
-  nfloor := Qfloor
+  nfloor := Qfloor;
+  nnorm := qnorm
 }.
 
 Definition Rfloor (r : R) : Z := (up r - 1)%Z.
@@ -28,7 +43,8 @@ Definition Rfloor (r : R) : Z := (up r - 1)%Z.
   nadd := Rplus; nsub := Rminus; nmul := Rmult; ndiv := Rdiv;
   nltb := Rltb; nleb := Rleb; neqb := Reqb;
   nofZ := IZR;
-  nfloor := Rfloor
+  nfloor := Rfloor;
+  nnorm := fun x => x
 }.
 
 Section Generic.
